@@ -6,11 +6,12 @@ CONSTANTS
   Cap = 1
   LeakChoices = {TRUE}
   CapDecrChoices = {TRUE}
+  SatChoices = {FALSE}
   AtomicSetPhase = FALSE
   Proc = {"p1", "p2"}
   NoProc = "nobody"
   NoOp <- MCNoOp
-  OpSet <- MutexOps
+  OpSet <- TocOps
   Budget <- Budget22
 INVARIANTS TypeOK C37_ShareCap C37_NoDeadlockUnlessLeak
 PROPERTIES C37_ShareOnce C37_FinalizedSticky C37_PhaseMonotoneUnlessStale C37_TimeoutMonotoneUnlessCap
